@@ -280,6 +280,16 @@ def o_push(case):
             n, d[:8].hex(), got[:6].hex(), ref[:6].hex()))
     if ST.compile_push_data_list([d]) != ref:
         dev.add("push:encoding-not-minimal", "compile_push_data_list([%d bytes]) differs from the minimal encoding" % n)
+    # the item inside a list, after and before companions of the same and of other lengths (one-byte values with and without
+    # an opcode of their own, an empty item, a neighbour of equal length): each item is pushed as if it stood alone
+    mates = [b"\x00", b"\x05", b"\x11", b"\x81", b"", bytes(n), (d[::-1] if n else b"\x7f"), b"\x10"]
+    for k in range(3):
+        lst = [mates[(n + k) % 8], mates[(n + 2 * k + 3) % 8], d, mates[(n + k + 5) % 8]][k % 2:]
+        want = b"".join(R.minimal_push(x) for x in lst)
+        if ST.compile_push_data_list(lst) != want:
+            dev.add("push:list-encoding-depends-on-neighbours", "compile_push_data_list(%s) = %s, the items pushed one by one give %s" % (
+                [x.hex()[:20] for x in lst], ST.compile_push_data_list(lst).hex()[:80], want.hex()[:80]))
+            break
     labels = ["op=" + _push_label(ref[0])]
     if n in (0, 1, 75, 76, 255, 256, 65535, 65536):
         labels.append("len-boundary")
